@@ -64,6 +64,17 @@ PLANS = {
             "the raw wire peer speaks SP/TCP and SP/IPC framing; MAXTTL range is 1..15 (NNI_MAX_MAX_TTL)",
         ],
     },
+    "C10": {
+        "level": "exploration",
+        "rule": NT_RULE + "; C10: a close (socket, context, endpoint, pipe or device end) was issued with operations pending or being issued, and every pending operation and every handle was then checked",
+        "budget_s": {"quick": 55, "thorough": 900},
+        "scenarios": [
+            S("c10_close", 2200, 70000),
+            S("c10_device", 500, 15000),
+        ],
+        "assumptions": ["deadlock = no thread can run and no timer is pending (exact in the simulator); the 30 s bounds are virtual time with injected stalls subtracted",
+                        "nng_pipe_close is asynchronous by design: only handles of closed sockets/contexts/dialers/listeners are required to be invalid immediately"],
+    },
     "C18": {
         "level": "exploration",
         "rule": NT_RULE + "; C18: fifo_seq - a fill was refused or a buffer was resized with the path's content "
